@@ -116,3 +116,22 @@ Theorem reach_same_live_routes b1 b2 ops1 ops2 :
   (forall x, In x (live_of b1 ops1) <-> In x (live_of b2 ops2)) ->
   forall r0 i, RM (r_root (run b1 ops1)) r0 i <-> RM (r_root (run b2 ops2)) r0 i.
 Proof. intros H. apply (same_live_same_routes _ _ _ _ (reachable_abs b1 ops1) (reachable_abs b2 ops2) H). Qed.
+
+(* C01 at history level: a match names a live template, carries the data given at its insertion, and one of its
+   expansions fits the path with exactly the returned parameter names and values *)
+From WF Require Import Proofs.FitsP.
+Theorem reach_match_is_live b ops chk p i ps :
+  rsearch chk (run b ops) p = Some (i, ps) ->
+  In (i_template i, i_data i) (live_of b ops)
+  /\ exists es e, parse (i_template i) = Ret es /\ In e es
+       /\ map fst ps = param_names (exp_route e) /\ fits chk (exp_route e) p (map snd ps)
+       /\ tinfo (i_template i) (i_data i) es (exp_route e) = Some i.
+Proof.
+  intros H. unfold rsearch in H.
+  destruct (search_genuine chk _ p i ps (reachable_inv_b b ops) H) as (r0 & Hin & Hnames & Hfits).
+  pose proof (reachable_abs b ops) as A.
+  destruct (abs_sound _ _ A r0 i Hin) as [Hlive _].
+  apply (abs_exact _ _ A) in Hin as (t & d & es & HL & Ep & Ht).
+  destruct (tinfo_some t d es r0 i Ht) as (e & He & Hr & Hit & Hid). subst r0.
+  split; [exact Hlive|]. rewrite Hit, Hid. exists es, e. repeat split; auto.
+Qed.
